@@ -26,6 +26,7 @@ STREAMS = {
                           'cmd/thermal-recorder/zz_verif_e2e.go': 'thermal-recorder/zz_verif_e2e.go',
                           'cmd/thermal-recorder/zz_verif_parse.go': 'thermal-recorder/zz_verif_parse.go'}),
     'writer': dict(daemon='./cmd/thermal-writer', confirm=True, overlay={'cmd/thermal-writer/zz_verif_writer.go': 'thermal-writer/zz_verif_writer.go'}),
+    'leptond': dict(daemon='./cmd/leptond', overlay={'cmd/leptond/zz_verif_leptond.go': 'leptond/zz_verif_leptond.go'}),
     'loglimiter': dict(pkg='./cmd/loglimiter', overlay={'loglimiter/zz_verif_loglimiter.go': 'loglimiter/zz_verif_loglimiter.go'}),
 }
 
@@ -80,7 +81,7 @@ PROPS = {
         assumptions=['non-decreasing clock', 'bucket-size*fps >= 1 and (min+preview)*fps >= 1 (the library panics on capacity 0; rate 0 is undefined)'],
     ),
     'C01': dict(
-        lean=['Props.C01', 'Props.FactsProc'],
+        lean=['Props.C01', 'Props.C01Spec', 'Props.FactsProc'],
         streams=['processor'],
         project={'processor': r'^< (md|m\.|re|rs|ret|panic)'}, rule=PROC_RULE, trusted=PROC_TRUSTED,
         assumptions=PROC_ASSUME['C01'],
@@ -99,13 +100,14 @@ PROPS = {
     ),
     'C04': dict(
         lean=['Props.C04', 'Props.C04Window', 'Props.FactsProc'],
-        streams=['processor', 'window', 'fs'],
-        project={'processor': r'^< (md|m\.|re|rs|ret|panic)', 'fs': r'^< gate'}, rule=PROC_RULE, trusted=PROC_TRUSTED,
+        streams=['processor', 'window', 'fs', 'e2e'],
+        project={'processor': r'^< (md|m\.|re|rs|ret|panic)', 'fs': r'^< gate', 'e2e': r'^$'}, rule=PROC_RULE, trusted=PROC_TRUSTED,
         assumptions=PROC_ASSUME['C04'],
     ),
     'C12': dict(
         lean=['Props.C12', 'Props.FactsProc'],
-        streams=['processor'],
+        streams=['processor', 'fs'],
+        project={'fs': r'^< (ret|panic)'},
         rule=PROC_RULE, trusted=PROC_TRUSTED,
         assumptions=PROC_ASSUME['C12'],
     ),
@@ -166,9 +168,11 @@ PROPS = {
     ),
     'C14': dict(
         lean=['Props.C14', 'Props.FactsWiring', 'Props.Pipeline'],
-        streams=['e2e'],
-        rule=E2E_RULE,
-        trusted=E2E_TRUSTED + ['yaml.v1 (camera header): the model uses a decoder for the image of the encoder on flat maps, validated against the real decoder'],
+        streams=['e2e', 'leptond'],
+        rule=E2E_RULE + '; leptond stream: the real sendCameraSpecs of the camera daemon run on a lepton3.Lepton3 whose I2C command interface is a register-level fake (serials up to 2^63-1, '
+             'both part numbers and unknown ones, firmware bytes 0..255, failing serial / firmware queries), sent over a unix socket and read with the real ReadHeaderInfo and with the Lean decoder',
+        trusted=E2E_TRUSTED + ['yaml.v1 (camera header): the model uses a decoder for the image of the encoder on flat maps, validated against the real decoder',
+                               'leptond stream: fake CCI register file behind periph i2creg (the SPI frame path of leptond is not exercised; its marker / frame writes are covered by regenerated facts)'],
         assumptions=['frames do not begin with the bytes "clear" (indistinguishable from the marker in the wire format itself)', 'frame size >= 5'],
     ),
     'C11': dict(
@@ -210,7 +214,7 @@ _COMMON_NOTE = ('Trusted: Lean kernel (axioms propext, Classical.choice, Quot.so
 
 MANIFEST_TEXT = {
     'C01': dict(
-        text='Theorem for every configuration with ring capacity >= 1, every event list (frames with any motion bits, refused starts of all three kinds, bad frames, resets, test requests) and every fault placement except failing motion-sink writes: the trace of the MotionProcessor model is accepted by the C01/C02 monitor - every recording is a consecutive ascending id run, recordings never overlap, and each starts at max(trigger+1-K, 1+last id of the previous recording) (tiling). Proved by a product invariant of model state, ring ghost state and monitor state; the ring part rests on the C19 refinement.',
+        text='Theorem for every configuration with ring capacity >= 1, every event list (frames with any motion bits, refused starts of all three kinds, bad frames, resets, test requests) and every fault placement except failing motion-sink writes: the trace of the MotionProcessor model is accepted by the C01/C02 monitor - every recording is a consecutive ascending id run, recordings never overlap, and each starts at max(trigger+1-K, 1+last id of the previous recording) (tiling). Proved by a product invariant of model state, ring ghost state and monitor state; the ring part rests on the C19 refinement. The monitor itself is proved sound against a plain list specification for ANY trace (Props.C01Spec.monitor_sound: acceptance implies every recording is a List.range run and the concatenation of all recordings is strictly increasing), and the composed pipeline model inherits it from socket bytes to file contents (pipe_c01).',
         note=_COMMON_NOTE + 'the executable monitor that states the property is part of the trusted reading of the statement (lean/TR/ProcMon.lean, lean/TR/ThrMon.lean).',
         technique='Lean 4 proof (product invariant of model x ghost x monitor, induction over the event list) + differential correspondence',
         design_ref='DESIGN.md 5/C01'),
